@@ -18,6 +18,7 @@ def run(chk: Check):
               {"hdr": {"kind": "set_seed"}, "ev": D.set_seed_events(rng)},
               {"hdr": {"kind": "group"}, "ev": D.group_events(rng)},
               {"hdr": {"kind": "builder_ops"}, "ev": D.builder_ops_events(rng, 60 if chk.quick else 600)},
+              {"hdr": {"kind": "builder_order"}, "ev": D.builder_order_events(rng, 5 if chk.quick else 40)},
               {"hdr": {"kind": "replace_var"}, "ev": D.replace_var_events(rng, 60 if chk.quick else 800)},
               {"hdr": {"kind": "distreg_wiring"}, "ev": D.wiring_events()},
               {"hdr": {"kind": "var_graph"}, "ev": D.var_graph_events(rng, 40 if chk.quick else 400)}]
